@@ -96,10 +96,17 @@ impl<'tcx> Runner<'tcx> {
         let tcx = self.ip.tcx;
         let key = format!("arg{}", idx);
         if let Some(it) = ity_of(t) {
-            if let Some(r) = job.opts.get(&key).and_then(|s| parse_range(s)) {
-                return Val::Int(IntV::new(r.0.max(it.min()), r.1.min(it.max()), it));
+            let r = job.opts.get(&key).and_then(|s| parse_range(s)).map(|r| (r.0.max(it.min()), r.1.min(it.max()))).unwrap_or((it.min(), it.max()));
+            // named root atom so that results can be reported as exact functions of the input
+            if job.opts.contains_key(&format!("atom.{}", key)) || job.opts.contains_key(&format!("scale.{}", key)) {
+                let scale: i128 = job.opts.get(&format!("scale.{}", key)).and_then(|s| s.parse().ok()).unwrap_or(1);
+                let a = self.ip.fresh_atom(st, r.0, r.1, None);
+                self.ip.atom_names.insert(a, key.clone());
+                let mut v = IntV::new(r.0.saturating_mul(scale).max(it.min()), r.1.saturating_mul(scale).min(it.max()), it);
+                v.lin = Some(Rc::new(Lin { m: 0, d: 0, terms: vec![(a, scale)] }));
+                return Val::Int(v);
             }
-            return Val::Int(IntV::top(it));
+            return Val::Int(IntV::new(r.0, r.1, it));
         }
         match t.kind() {
             ty::Ref(_, inner, m) => {
@@ -150,9 +157,77 @@ impl<'tcx> Runner<'tcx> {
             }
             ty::Array(et, _) if *et == tcx.types.u8 => {
                 let taint = if job.opts.get(&format!("taint.{}", name)).is_some() { T_RNG } else { 0 };
-                self.ip.top_of(t, 0).taint_all(taint)
+                let v = self.ip.top_of(t, 0).taint_all(taint);
+                self.shape_ints(st, job, &key, v)
             }
-            _ => self.ip.top_of(t, 0),
+            _ => {
+                let v = self.ip.top_of(t, 0);
+                self.shape_ints(st, job, &key, v)
+            }
+        }
+    }
+
+    /// options `elems.argN=lo..hi` (all integer leaves in that range), `atoms.argN=uniform` (all leaves
+    /// are the same unknown value, a named root atom), `atoms.argN=each` (one atom per leaf, small arrays)
+    fn shape_ints(&mut self, st: &mut State, job: &Job, key: &str, v: Val) -> Val {
+        let range = job.opts.get(&format!("elems.{}", key)).and_then(|s| parse_range(s));
+        let mode = job.opts.get(&format!("atoms.{}", key)).cloned();
+        let boxes: Vec<(i128, i128)> = job.opts.get(&format!("box.{}", key)).map(|s| s.split(';').filter_map(|x| parse_range(x)).collect()).unwrap_or_default();
+        if range.is_none() && mode.is_none() && boxes.is_empty() {
+            return v;
+        }
+        let mut uniform_atom: Option<AtomId> = None;
+        let mut counter = 0usize;
+        self.map_ints(st, &v, &mut |me: &mut Self, st: &mut State, i: &IntV| {
+            let (lo, hi) = match (boxes.get(counter), range) {
+                (Some(r), _) => (r.0.max(i.ty.min()), r.1.min(i.ty.max())),
+                (None, Some(r)) => (r.0.max(i.ty.min()), r.1.min(i.ty.max())),
+                _ => (i.lo, i.hi),
+            };
+            let mut n = IntV::new(lo, hi, i.ty);
+            n.taint = i.taint;
+            match mode.as_deref() {
+                Some("uniform") => {
+                    let a = match uniform_atom {
+                        Some(a) => a,
+                        None => {
+                            let a = me.ip.fresh_atom(st, lo, hi, None);
+                            me.ip.atom_names.insert(a, key.to_string());
+                            uniform_atom = Some(a);
+                            a
+                        }
+                    };
+                    n.lin = Some(Rc::new(Lin::atom(a)));
+                }
+                Some("each") => {
+                    let a = me.ip.fresh_atom(st, lo, hi, None);
+                    me.ip.atom_names.insert(a, format!("{}[{}]", key, counter));
+                    n.lin = Some(Rc::new(Lin::atom(a)));
+                }
+                _ => {}
+            }
+            counter += 1;
+            n
+        })
+    }
+
+    fn map_ints(&mut self, st: &mut State, v: &Val, f: &mut dyn FnMut(&mut Self, &mut State, &IntV) -> IntV) -> Val {
+        match v {
+            Val::Int(i) => Val::Int(f(self, st, i)),
+            Val::Tuple(t) => Val::Tuple(Rc::new(t.iter().map(|x| self.map_ints(st, x, f)).collect())),
+            Val::Arr(a) => {
+                let mut r = ArrV::uniform(Val::Bot, a.len);
+                if a.len <= 16 {
+                    for i in 0..a.len {
+                        let e = self.map_ints(st, a.get(i), f);
+                        r.over.insert(i, e);
+                    }
+                } else {
+                    r.default = self.map_ints(st, &a.default, f);
+                }
+                Val::Arr(Rc::new(r))
+            }
+            other => other.clone(),
         }
     }
 
@@ -269,12 +344,12 @@ impl<'tcx> Runner<'tcx> {
         self.ip.rng_mode = saved_rng;
         self.ip.input_names = saved_inputs;
         self.ip.stack = saved_stack;
-        self.ip.atom_names = saved_names;
+        self.ip.last_atom_names = std::mem::replace(&mut self.ip.atom_names, saved_names);
         self.ip.region_depth = saved_region.0;
         self.ip.next_atom = saved_next;
         self.ip.region_start = saved_region.1;
         // returned values must not keep references into the dead synthetic frame
-        (joined.map(|v| v.strip_atoms(0)), rendered)
+        (joined, rendered)
     }
 }
 
@@ -285,9 +360,63 @@ fn enum_payload(v: &Val, variant: u32, field: usize) -> Val {
     }
 }
 
+/// integer leaves of a result as [lo, hi, c, d] with value = c * x + d (x = the analysed argument)
+fn collect_leaves(v: &Val, names: &std::collections::HashMap<AtomId, String>, argk: &str, out: &mut Vec<J>, exact: &mut bool) {
+    match v {
+        Val::Int(i) => {
+            if i.lo == i.hi {
+                out.push(J::Arr(vec![J::Int(i.lo), J::Int(i.hi), J::Int(0), J::Int(i.lo)]));
+                return;
+            }
+            if let Some(l) = &i.lin {
+                if let Some((a, c, d)) = l.single() {
+                    if names.get(&a).map(|n| n == argk).unwrap_or(false) {
+                        out.push(J::Arr(vec![J::Int(i.lo), J::Int(i.hi), J::Int(c), J::Int(d)]));
+                        return;
+                    }
+                }
+            }
+            *exact = false;
+            out.push(J::Arr(vec![J::Int(i.lo), J::Int(i.hi), J::Null, J::Null]));
+        }
+        Val::Tuple(t) => {
+            for x in t.iter() {
+                collect_leaves(x, names, argk, out, exact);
+            }
+        }
+        Val::Enum(e) => {
+            // variant set is part of the answer: exact only when a single variant is possible
+            if e.variants.len() != 1 {
+                *exact = false;
+            }
+            for (k, fs) in &e.variants {
+                out.push(J::Arr(vec![J::s(format!("variant{}", k))]));
+                for x in fs {
+                    collect_leaves(x, names, argk, out, exact);
+                }
+            }
+        }
+        Val::Arr(a) => {
+            let j = a.all_elems_join();
+            collect_leaves(&j, names, argk, out, exact);
+        }
+        _ => {
+            *exact = false;
+        }
+    }
+}
+
 pub fn val_summary(v: &Val, depth: u32) -> J {
     match v {
-        Val::Int(i) => jobj! {"int" => J::Arr(vec![J::Int(i.lo), J::Int(i.hi)]), "taint" => J::i(i.taint)},
+        Val::Int(i) => {
+            let mut o = jobj! {"int" => J::Arr(vec![J::Int(i.lo), J::Int(i.hi)]), "taint" => J::i(i.taint)};
+            if let Some(l) = &i.lin {
+                if l.m == 0 && !l.terms.is_empty() {
+                    o.set("lin", J::Arr(vec![J::Int(l.d), J::Arr(l.terms.iter().map(|t| J::Arr(vec![J::Int(t.0 as i128), J::Int(t.1)])).collect())]));
+                }
+            }
+            o
+        }
         Val::Tuple(t) if depth < 4 => J::Arr(t.iter().map(|x| val_summary(x, depth + 1)).collect()),
         Val::Enum(e) if depth < 4 => {
             let mut m = J::obj();
@@ -322,6 +451,7 @@ pub fn run<'tcx>(tcx: TyCtxt<'tcx>) -> String {
             continue;
         };
         rn.ip.taint_track = job.opts.contains_key("taint");
+        rn.ip.moduli = Rc::new(job.opts.get("modulus").map(|s| s.split(',').filter_map(|x| x.parse::<i128>().ok()).collect()).unwrap_or_default());
         rn.ip.probe_pats = job.opts.get("probe").map(|s| s.split('|').map(|x| x.to_string()).collect()).unwrap_or_default();
         let steps0 = rn.ip.steps;
         let probes0 = rn.ip.probes.len();
@@ -331,7 +461,73 @@ pub fn run<'tcx>(tcx: TyCtxt<'tcx>) -> String {
         if let Some(b) = job.opts.get("budget").and_then(|s| s.parse::<u64>().ok()) {
             rn.ip.budget = rn.ip.steps + b;
         }
-        let (v, parts) = rn.run_root(ri, job);
+        // in-driver piecewise analysis: bisect one integer argument until every cell is decided
+        let mut cells_json: Option<J> = None;
+        if let Some(argk) = job.opts.get("pwa") {
+            let (lo0, hi0) = job.opts.get("pwa.range").and_then(|s| parse_range(s)).unwrap_or((0, 0));
+            let want_exact = job.opts.get("pwa.accept").map(|s| s == "exact").unwrap_or(true);
+            let mut stack = vec![(lo0, hi0)];
+            // optional initial grid: split at every x = offset (mod period)
+            if let Some((per, off)) = job.opts.get("pwa.grid").and_then(|s| s.split_once(':')).and_then(|(a, b)| Some((a.parse::<i128>().ok()?, b.parse::<i128>().ok()?))) {
+                if per > 0 && (hi0 - lo0) / per < 100_000 {
+                    stack.clear();
+                    let mut start = lo0;
+                    let mut b = lo0 + (off - lo0).rem_euclid(per);
+                    if b == lo0 {
+                        b += per;
+                    }
+                    while b <= hi0 {
+                        stack.push((start, b - 1));
+                        start = b;
+                        b += per;
+                    }
+                    stack.push((start, hi0));
+                    stack.reverse();
+                }
+            }
+            rn.ip.fast_from_fn = job.opts.contains_key("fast_from_fn");
+            let mut cells = Vec::new();
+            let mut evals = 0u64;
+            let max_evals: u64 = job.opts.get("pwa.max").and_then(|s| s.parse().ok()).unwrap_or(400_000);
+            while let Some((lo, hi)) = stack.pop() {
+                evals += 1;
+                if evals > max_evals {
+                    cells.push(J::Arr(vec![J::Int(lo), J::Int(hi), J::s("budget"), J::Null]));
+                    continue;
+                }
+                let mut j2 = job.clone();
+                if job.opts.contains_key("pwa.elems") {
+                    j2.opts.insert(format!("elems.{}", argk), format!("{}..{}", lo, hi));
+                    j2.opts.insert(format!("atoms.{}", argk), "uniform".into());
+                } else {
+                    j2.opts.insert(argk.clone(), format!("{}..{}", lo, hi));
+                    if !job.opts.contains_key(&format!("scale.{}", argk)) {
+                        j2.opts.insert(format!("atom.{}", argk), "1".into());
+                    }
+                }
+                let ev0 = rn.ip.viol_events;
+                let (v, _) = rn.run_root(ri, &j2);
+                let violated = rn.ip.viol_events != ev0;
+                let names = rn.ip.last_atom_names.clone();
+                let mut leaves = Vec::new();
+                let mut exact = v.is_some();
+                if let Some(v) = &v {
+                    collect_leaves(v, &names, argk, &mut leaves, &mut exact);
+                }
+                let decided = !violated && (exact || !want_exact);
+                if decided || lo == hi {
+                    let status = if violated { "violated" } else if exact { "exact" } else if want_exact { "inexact" } else { "safe" };
+                    cells.push(J::Arr(vec![J::Int(lo), J::Int(hi), J::s(status), J::Arr(leaves)]));
+                } else {
+                    let mid = lo + (hi - lo) / 2;
+                    stack.push((mid + 1, hi));
+                    stack.push((lo, mid));
+                }
+            }
+            rn.ip.fast_from_fn = false;
+            cells_json = Some(jobj! {"cells" => J::Arr(cells), "evaluations" => J::i(evals as i128)});
+        }
+        let (v, parts) = if cells_json.is_some() { (None, vec![]) } else { rn.run_root(ri, job) };
         rn.ip.budget = budget_left;
         let probes: Vec<J> = rn.ip.probes[probes0..]
             .iter()
@@ -356,7 +552,9 @@ pub fn run<'tcx>(tcx: TyCtxt<'tcx>) -> String {
             "over_budget" => J::Bool(rn.ip.over_budget),
             "probes" => J::Arr(probes),
             "calls" => calls,
+            "pwa" => cells_json.unwrap_or(J::Null),
             "reject_witness" => J::Arr(rn.ip.reject_witness.iter().map(|w| val_summary(w, 0)).collect()),
+            "atom_names" => { let mut m = J::obj(); for (k, v) in &rn.ip.last_atom_names { m.set(&k.to_string(), J::s(v.clone())); } m },
             "wall_ms" => J::i(t0.elapsed().as_millis() as i128),
         });
         rn.ip.over_budget = false;
